@@ -14,9 +14,9 @@ func init() {
 	props["C17"] = &PropSpec{
 		ID: "C17",
 		Jobs: func(tier string) []*Job {
-			hi := 7
+			hi := 9
 			if tier == "thorough" {
-				hi = 9
+				hi = 10
 			}
 			js := rangeJobs("C17Clean", "n", 0, hi)
 			w := 3
@@ -45,9 +45,9 @@ func init() {
 			return js
 		},
 		Bounds: func(tier string) string {
-			hi := 7
+			hi := 9
 			if tier == "thorough" {
-				hi = 9
+				hi = 10
 			}
 			return fmt.Sprintf("every input string of 0..%d bytes over the full byte alphabet (256^n each), by solver; long inputs of 120..135 bytes (three concrete fillers) with a fully symbolic window of 3 (quick) / 5 (thorough) bytes at the start, middle or end, crossing the 128-byte stack buffer; redirect guard: two all-redirect routers x every path of 2..4 (quick) / 2..5 (thorough) bytes x GET/POST/CONNECT (a redirect is issued only when the path equals the reference canonical form)", hi)
 		},
@@ -92,9 +92,9 @@ func init() {
 			return js
 		},
 		Bounds: func(tier string) string {
-			return fmt.Sprintf("C10(a): every pattern string of 0..%d bytes over the full byte alphabet with default limits, 0..%d bytes with (maxParams,maxKeyBytes) in {(1,1),(2,3)}; C10(b): every accepted pattern of 1..%d bytes as the only route, with every substitution of 1..2 bytes per named parameter and 1..3 bytes per catch-all (full alphabet minus the delimiters); plus patterns assembled from 14 host forms x up to 3 (quick) / 4 (thorough) segments out of 17 segment forms (valid and malformed wildcards, mid-segment forms), optional trailing slash, three limit configurations", c10n(tier), c10n(tier)-1, c10n(tier))
+			return fmt.Sprintf("C10(a): every pattern string of 0..%d bytes over the full byte alphabet with default limits, 0..%d bytes with (maxParams,maxKeyBytes) in {(1,1),(2,3)}; C10(b): every accepted pattern of 1..%d bytes as the only route, with every substitution of 1..2 bytes per named parameter and 1..3 bytes per catch-all (full alphabet minus the delimiters); plus patterns assembled from 14 host forms x up to 3 (quick) / 4 (thorough) segments out of 18 segment forms (valid and malformed wildcards, mid-segment forms, literal braces), optional trailing slash, three limit configurations; each accepted assembled pattern (default limits) is also routed as the only route with fixed substitution values after a neighbour route extending its hostname or path was registered and deleted again", c10n(tier), c10n(tier)-1, c10n(tier))
 		},
-		RequiredCovers: []string{"accepted", "rejected", "accepted with hostname", "accepted with wildcard", "dont-care region", "round trip with wildcards", "round trip with hostname"},
+		RequiredCovers: []string{"accepted", "rejected", "accepted with hostname", "accepted with wildcard", "dont-care region", "round trip with wildcards", "round trip with hostname", "round trip after a neighbour came and went"},
 		Assumptions: []string{
 			"grammar don't-care regions (neither acceptance nor rejection asserted): '_' in a host label, an all-numeric last label beside non-numeric ones, '-' directly before a host {param}",
 			"fmt.Errorf modelled (message opaque, %w operands kept); errors.Is modelled by walking Unwrap",
@@ -102,7 +102,7 @@ func init() {
 	}
 }
 
-const nHandSets = 22
+const nHandSets = 23
 
 func lookupJobs(h string, nsets, maxLh, maxLp int) []*Job {
 	var js []*Job
@@ -540,7 +540,7 @@ func init() {
 			return js
 		},
 		Bounds: func(tier string) string {
-			return "4 resolver configurations (none, succeeding, failing, per-route override over a failing router-wide one) x 5 handler kinds (route, 404, 405, trailing-slash redirect, OPTIONS) x 6 handler behaviours (WriteHeader(code) for every code 100..999 by solver, implicit 200 via Write, Redirect with Location, 301 without Location, nothing written, panic); A/B against the same router without the middleware"
+			return "4 resolver configurations (none, succeeding, failing, per-route override over a failing router-wide one) x 5 handler kinds (route, 404, 405, trailing-slash redirect, OPTIONS) x 9 handler behaviours (WriteHeader(code) for every code 100..999 by solver, implicit 200 via Write, Redirect with Location, 301 without Location, nothing written, panic, any code with a Location header, Write then a superfluous WriteHeader(code), 201 then a superfluous WriteHeader(code)); A/B against the same router without the middleware"
 		},
 		RequiredCovers: []string{"2xx", "3xx", "4xx", "5xx", "location logged", "panic through logger"},
 		Assumptions: []string{
@@ -562,12 +562,23 @@ func init() {
 			for h := 0; h < 6; h++ {
 				js = append(js, &Job{Harness: "C15Redact", Params: map[string]int{"header": h}})
 			}
+			maxK := 2
+			if tier == "thorough" {
+				maxK = 3
+			}
+			for k := 1; k <= maxK; k++ {
+				js = append(js, &Job{Harness: "C15Txn", Params: map[string]int{"k": k}})
+			}
 			return js
 		},
 		Bounds: func(tier string) string {
-			return "10 panic values (error, wrapped and bare http.ErrAbortHandler, string, custom struct, *net.OpError over *os.SyscallError with 'broken pipe' / 'Connection reset by peer' / other, a run-time error, OpError without SyscallError) x 4 response progress states (nothing, header, partial body, flushed on a writer offering FlushError) x 4 handler kinds (route, 404, 405, OPTIONS); redaction: each of the six credential header names in every capitalisation (2^letters spellings per name, decided by the solver on a byte-wise case constraint); panics inside Updates/View are covered by C04"
+			k := "2"
+			if tier == "thorough" {
+				k = "3"
+			}
+			return "12 panic values (error, wrapped and bare http.ErrAbortHandler, string, custom struct, *net.OpError over *os.SyscallError with 'broken pipe' / 'Connection reset by peer' / other, the same syscall error nested in a second OpError or wrapped with %w, a run-time error, OpError without SyscallError) x 4 response progress states (nothing, header, partial body, flushed on a writer offering FlushError) x 4 handler kinds (route, 404, 405, OPTIONS); redaction: each of the six credential header names in every capitalisation (2^letters spellings per name, decided by the solver on a byte-wise case constraint); managed transactions: Updates run by a handler under Recovery, Updates called directly, View run by a handler, with every sequence of 1.." + k + " writes out of 6 (Handle, Update, Delete, Truncate(GET), Truncate(), Handle under another method) and the panic after every step"
 		},
-		RequiredCovers: []string{"ErrAbortHandler re-raised", "500 written", "broken connection: nothing written", "panic after a flush", "spelled as in the list", "other capitalisation"},
+		RequiredCovers: []string{"ErrAbortHandler re-raised", "500 written", "broken connection: nothing written", "panic after a flush", "spelled as in the list", "other capitalisation", "panic inside Updates in a handler", "panic inside a direct Updates", "panic inside View in a handler"},
 		Assumptions: []string{
 			"httputil.DumpRequest modelled: request line, Host line, one 'Key: value' line per stored header value with keys as stored, CRLF separated (natively the real DumpRequest is used on replay)",
 			"log/slog front end modelled as in C20; runtime.Callers returns no frames (stack text not asserted)",
@@ -713,6 +724,10 @@ func init() {
 						continue
 					}
 					js = append(js, &Job{Harness: "C18Designate", Params: map[string]int{"k": k, "fwd": fwd}})
+					// the 8 combinations of the private / loopback / link-local range options of the non-private strategies
+					if k >= 1 && k <= 2 || (k == 3 && tier == "thorough") {
+						js = append(js, &Job{Harness: "C18Designate", Params: map[string]int{"k": k, "fwd": fwd, "ranges": 1}})
+					}
 				}
 				for n := 0; n <= maxN; n++ {
 					js = append(js, &Job{Harness: "C18Prefix", Params: map[string]int{"n": n, "fwd": fwd}})
@@ -736,9 +751,9 @@ func init() {
 			if tier == "thorough" {
 				k, n = 4, 6
 			}
-			return fmt.Sprintf("(a) every IPv4 (2^32) and IPv6 (2^128, incl. IPv4-mapped) address against the default, private, loopback and link-local range groups, by solver; (b) header lists of up to %d entries from a 14-entry catalogue (public/private/loopback/link-local v4 and v6, ports, brackets, zones, quotes, Forwarded parameters and capitalisation, empty, junk, unspecified, padded), solver-chosen split over header instances, X-Forwarded-For and Forwarded, trusted counts and limits 1..4; (c) an attacker prefix of 0..%d arbitrary bytes (commas included) in the same or an earlier header instance, for the three rightmost strategies over suffixes of 1..2 catalogue entries; single-header, chain and remote-address resolvers over catalogue pairs; crash freedom: every header value and remote address of 0..4 (quick; Forwarded also 5) / 0..6 (thorough) arbitrary bytes through every resolver", k, n)
+			return fmt.Sprintf("(a) every IPv4 (2^32) and IPv6 (2^128, incl. IPv4-mapped) address against the default, private, loopback and link-local range groups, by solver; (b) header lists of up to %d entries from a 14-entry catalogue (public/private/loopback/link-local v4 and v6, ports, brackets, zones, quotes, Forwarded parameters and capitalisation, empty, junk, unspecified, padded), solver-chosen split over header instances, X-Forwarded-For and Forwarded, trusted counts and limits 1..4; for lists of 1..2 (thorough: 1..3) entries the two non-private strategies also under all 8 combinations of their private / loopback / link-local range options; (c) an attacker prefix of 0..%d arbitrary bytes (commas included) in the same or an earlier header instance, for the three rightmost strategies over suffixes of 1..2 catalogue entries; single-header, chain and remote-address resolvers over catalogue pairs; crash freedom: every header value and remote address of 0..4 (quick; Forwarded also 5) / 0..6 (thorough) arbitrary bytes through every resolver", k, n)
 		},
-		RequiredCovers: []string{"IPv4 address inside the default ranges", "IPv6 address inside the default ranges", "IPv4-mapped address inside the default ranges",
+		RequiredCovers: []string{"non private: a strict subset of the range classes configured", "IPv4 address inside the default ranges", "IPv6 address inside the default ranges", "IPv4-mapped address inside the default ranges",
 			"trusted count: designated entry", "trusted count: error", "non private: designated entry", "trusted range: designated entry", "trusted range: error",
 			"leftmost: designated entry", "single header: last instance", "chain falls through to the next resolver", "selection exists in the suffix", "arbitrary header content survived every resolver"},
 		Assumptions: []string{
@@ -762,22 +777,26 @@ func init() {
 				maxLp, maxLn = 5, 3
 			}
 			for _, s := range sets {
-				for stage := 0; stage < 4; stage++ {
+				for stage := 0; stage < 5; stage++ {
 					for lp := 2; lp <= maxLp; lp++ {
 						js = append(js, &Job{Harness: "C06Parked", Params: map[string]int{"set": s, "stage": stage, "lh": 0, "lp": lp, "ln": maxLn - 1}})
 					}
 					js = append(js, &Job{Harness: "C06Parked", Params: map[string]int{"set": s, "stage": stage, "lh": 2, "lp": 3, "ln": maxLn}})
 				}
 			}
+			// a 30-level chain (deep-tree code paths of the iterators)
+			for stage := 0; stage < 5; stage++ {
+				js = append(js, &Job{Harness: "C06Parked", Params: map[string]int{"set": 0, "deep": 1, "stage": stage, "lh": 0, "lp": 3, "ln": 2}})
+			}
 			return js
 		},
 		Bounds: func(tier string) string {
 			if tier == "thorough" {
-				return "8 corpus routers (routes alternately GET/POST, redirect-trailing-slash on, 405 and auto-OPTIONS on) x a write transaction parked at 4 stages (just opened; after Handle+Delete+Truncate; inside Updates; after Txn.Snapshot and Txn.Iter) x every read entry point (ServeHTTP in 4 methods, Lookup, Clone, Reverse, Has, Route, Len, Stats, Iter.All/Methods/Prefix/Routes/Reverse, View with all Txn reads, read-only Txn with Snapshot/Commit/Abort) on every path of 2..5 bytes, host of 0 or 2 bytes and pattern of 2..3 bytes; plus: a second writer does block"
+				return "8 corpus routers (routes alternately GET/POST, redirect-trailing-slash on, 405 and auto-OPTIONS on) x a write transaction parked at 5 stages (just opened; after Handle+Delete+Truncate; inside Updates; after Txn.Snapshot and Txn.Iter; after a commit that replaced the tree on which a Lookup context, an Iter and a read-only Txn had been obtained - these are then used and closed) x every read entry point (ServeHTTP in 4 methods, Lookup, Clone, Reverse, Has, Route, Len, Stats, Iter.All/Methods/Prefix/Routes/Reverse, View with all Txn reads, read-only Txn with Snapshot/Commit/Abort) on every path of 2..5 bytes, host of 0 or 2 bytes and pattern of 2..3 bytes; the same 5 stages on a 30-level chain router (deep-tree iterator paths), path of 3 bytes; plus: a second writer does block"
 			}
-			return "4 corpus routers (routes alternately GET/POST, redirect-trailing-slash on, 405 and auto-OPTIONS on) x a write transaction parked at 4 stages (just opened; after Handle+Delete+Truncate; inside Updates; after Txn.Snapshot and Txn.Iter) x every read entry point (ServeHTTP in 4 methods, Lookup, Clone, Reverse, Has, Route, Len, Stats, Iter.All/Methods/Prefix/Routes/Reverse, View with all Txn reads, read-only Txn with Snapshot/Commit/Abort) on every path of 2..4 bytes, host of 0 or 2 bytes and pattern of 2..3 bytes; plus: a second writer does block"
+			return "4 corpus routers (routes alternately GET/POST, redirect-trailing-slash on, 405 and auto-OPTIONS on) x a write transaction parked at 5 stages (just opened; after Handle+Delete+Truncate; inside Updates; after Txn.Snapshot and Txn.Iter; after a commit that replaced the tree on which a Lookup context, an Iter and a read-only Txn had been obtained - these are then used and closed) x every read entry point (ServeHTTP in 4 methods, Lookup, Clone, Reverse, Has, Route, Len, Stats, Iter.All/Methods/Prefix/Routes/Reverse, View with all Txn reads, read-only Txn with Snapshot/Commit/Abort) on every path of 2..4 bytes, host of 0 or 2 bytes and pattern of 2..3 bytes; the same 5 stages on a 30-level chain router (deep-tree iterator paths), path of 3 bytes; plus: a second writer does block"
 		},
-		RequiredCovers: []string{"all read entry points completed while a writer was parked"},
+		RequiredCovers: []string{"all read entry points completed while a writer was parked", "stale context closed while a writer was parked"},
 		Assumptions: []string{
 			"sync.Mutex modelled: Lock on a mutex held by the parked writer is reported as blocked-forever (deadlock violation); blocking inside the Go runtime, sync.Pool or atomics is outside the model",
 			"the parked writer and the reader are the same executor thread: no scheduling is involved, the claim is that no read path acquires the writer lock (or any lock the writer holds) for any input in the bounds",
